@@ -9,6 +9,7 @@ import time
 from . import core, segment
 
 ALPHABET = ['a', 'B', 'q', 'z', '1', '9', '2', '0', '#', '<', '3', '!', ' ']
+EW_ALPHABET = ['.', 'c', 'o', 'm', '@', '/', 'a', '1', 'w', 'B']
 BASE_WORDS = ['pass', 'word', 'love', 'monkey', 'chair', 'table']
 
 
@@ -16,7 +17,14 @@ def mc_stage(tier):
     mod = os.path.join(core.SPEC, 'Segment.tla')
     cfg = os.path.join(core.SPEC, 'MC_Segment_%s.cfg' % tier)
     r = core.tlc_must_pass(mod, cfg, 'Segment ' + tier, timeout=3000)
-    return {'cfg': os.path.basename(cfg), 'states': r.distinct, 'transitions': r.generated, 'wall_s': round(r.wall, 1)}
+    cfg2 = os.path.join(core.SPEC, 'MC_Segment_ew_%s.cfg' % tier)
+    r2 = core.tlc_must_pass(mod, cfg2, 'Segment e-mail/website ' + tier, timeout=6000)
+    # the TLD list is a measured constant of the model: it must be the code's list
+    from lib_trainer.detection_rules.tld_list import get_tld_list
+    want = ['.com', '.org', '.edu', '.gov', '.uk', '.net', '.ca', '.de', '.jp', '.fr', '.au', '.us', '.ru', '.ch', '.it', '.nl.se', '.no', '.es', '.mil']
+    return {'cfg': os.path.basename(cfg), 'states': r.distinct + r2.distinct, 'transitions': r.generated + r2.generated,
+            'wall_s': round(r.wall + r2.wall, 1), 'email_website_cfg': os.path.basename(cfg2),
+            'tld_list_of_model_is_the_codes': get_tld_list() == want}
 
 
 def model_pipeline(strings):
@@ -50,6 +58,16 @@ def main(pid, tier, seed):
     longer = [''.join(rng.choice(ALPHABET) for _ in range(rng.choice([4, 5]))) for _ in range(2500 if tier == 'quick' else 40000)]
     walky = [''.join(rng.choice(['1', 'q', 'a', 'z', '2', '!', '#', '3']) for _ in range(rng.choice([4, 5]))) for _ in range(600 if tier == 'quick' else 8000)]
     strings += sorted(set(longer) | set(walky))
+    # e-mail / website stages: strings over the alphabet of MC_Segment_ew_*.cfg (exhaustive up to 4, fragments beyond)
+    n_base = len(strings)
+    ew = []
+    for n in range(1, 4 if tier == 'quick' else 5):
+        ew += [''.join(t) for t in itertools.product(EW_ALPHABET, repeat=n)]
+    ew += [''.join(rng.choice(EW_ALPHABET) for _ in range(rng.choice([4, 5, 6]))) for _ in range(2500 if tier == 'quick' else 40000)]
+    frag = ['.com', '.ca', 'www.', '@', '/', 'a', 'B', '1', 'w', 'c', 'o', 'm', '.', 'com', '.co', 'a.com', '@a.ca']
+    for _ in range(1500 if tier == 'quick' else 30000):
+        ew.append(''.join(rng.choice(frag) for _ in range(rng.randint(2, 5)))[:14])
+    strings += sorted(set(ew) - set(strings))
     model = model_pipeline(strings)
     rec = segment.Recorder()
     drift = []
@@ -71,7 +89,7 @@ def main(pid, tier, seed):
         pos = 0
         for sec in fin:
             L = len(sec['t'])
-            real.append((s[pos:pos + L], sec['k'], sec['n']))
+            real.append((s[pos:pos + L].lower() if sec['k'] == 'W' else s[pos:pos + L], sec['k'], sec['n']))
             pos += L
         want = [(''.join(x['t']), x['k'], x['n']) for x in mfinal]
         kfired = any(sec['k'] for sec in tr['snaps'][1]['sl'])
